@@ -1042,3 +1042,72 @@ def c01_r11(ctx):
     cs = calls_named(pi.node, "get_inline_fragments_from_selection_set")
     good = len(cs) == 1 and norm(argv(cs[0], 0, "selection_set") or ast.Constant(0)).endswith("field_node.selection_set") and "fragments_definitions" in norm(argv(cs[0], 1, "fragments_definitions") or ast.Constant(0))
     ctx.check(good, key(pi, "caller"), "parse_interface_type does not collect the inline fragments of the field's own selection set", pi.loc(), okmsg="interface fields: inline fragments of the field's selection set")
+
+
+# ---------------------------------------------------------------------- C01.R12
+@rule("C01.R12", "an interface field gets one class per type condition found among its inline fragments AND its spreads of fragments on subtypes", min_instances=6,
+      also=["C08", "C05"])
+def c01_r12(ctx):
+    from ..util import seq_terms
+    repo = ctx.repo
+    fi = repo.func(RF + "parse_interface_type")
+    srcs = {"get_inline_fragments_from_selection_set": "inline", "get_fragments_on_subtype": "spread"}
+
+    def which(e):
+        e = strip_pre(e)
+        if isinstance(e, ast.Name) and e.id in ("inline_fragments", "fragments_on_subtypes"):
+            return "inline" if e.id == "inline_fragments" else "spread"
+        if isinstance(e, ast.Call) and dotted(e.func) in srcs:
+            return srcs[dotted(e.func)]
+        return None
+
+    def mk(inline, spread):
+        def atom(e):
+            w = which(e)
+            if w is not None:
+                return inline if w == "inline" else spread
+            return None
+        return atom
+    eff = lambda c: norm(c.func) == "context.related_classes.append"
+    for inline, spread in ((True, False), (False, True), (True, True)):
+        outs = [o for o in Interp(fi, mk(inline, spread), is_effect=eff).run() if o.kind == "return" and not any("loop skipped" in t for t in o.trace)]
+        sc = f"inline={'yes' if inline else 'no'} spreads-on-subtypes={'yes' if spread else 'no'}"
+        good = bool(outs) and all(isinstance(strip_pre(o.value), ast.Call) and dotted(strip_pre(o.value).func) == "generate_union_annotation" for o in outs)
+        ctx.check(good, key(fi, sc), f"[{sc}] the field is not typed as the union of per-type classes: {[o.text()[:100] for o in outs]}", fi.loc(), okmsg=f"[{sc}] -> union of per-type classes")
+        if not good or not (inline and spread):
+            continue
+        o = outs[0]
+        # the type conditions iterated: a comprehension / collection over both sources
+        names_expr = None
+        for k, v in o.env.items():
+            if k.startswith("<"):
+                continue
+            vv = strip_pre(v)
+            if isinstance(vv, ast.Call) and is_name(vv.func, "<elem>") and "type_condition.name.value" in norm(vv):
+                names_expr = vv.args[0]
+        if names_expr is None:
+            raise AnalysisError("parse_interface_type: loop over the type-condition names not found")
+        comps = [n for n in ast.walk(names_expr) if isinstance(n, (ast.SetComp, ast.ListComp, ast.GeneratorExp))]
+        used = set()
+        for c in comps:
+            for g in c.generators:
+                for t in seq_terms(g.iter):
+                    pass
+                for n in ast.walk(g.iter):
+                    w = which(n) if isinstance(n, (ast.Name, ast.Call)) else None
+                    if w:
+                        used.add(w)
+                if isinstance(strip_pre(g.iter), ast.BoolOp):
+                    used.add("<or>")
+        ctx.check(used == {"inline", "spread"}, key(fi, "type conditions"), f"the per-type classes are derived from {sorted(used)} only: with `... on A {{..}}` next to `...FragmentOnB` one of the member types gets no class, "
+                  "so its payloads are validated against the interface's base class and the fragment's fields are lost", fi.loc(), okmsg="type conditions = inline fragments + fragments on subtypes")
+        srt = isinstance(strip_pre(names_expr), ast.Call) and is_name(strip_pre(names_expr).func, "sorted")
+        ctx.check(srt, key(fi, "sorted"), "the type-condition names are not sorted (class order would follow set iteration order)", fi.loc(), okmsg="type-condition names sorted")
+        effs = [norm(strip_pre(e)) for e in o.effects]
+        el = f"<elem>({norm(names_expr)})"
+        want = f"context.related_classes.append(RelatedClassData(class_name=class_name + {el}, type_name={el}))"
+        ctx.check(any(e == want for e in effs), key(fi, "related class"), f"no RelatedClassData(class_name + <type>, type_name=<type>) is recorded per type condition: {[e[:90] for e in effs]}", fi.loc(),
+                  okmsg="per type condition: RelatedClassData(class_name + type, type)")
+    outs = [o for o in Interp(fi, mk(False, False), is_effect=eff).run() if o.kind == "return"]
+    good = bool(outs) and all(isinstance(strip_pre(o.value), ast.Call) and dotted(strip_pre(o.value).func) == "generate_annotation_name" for o in outs)
+    ctx.check(good, key(fi, "no fragments"), f"without fragments the field must be typed by the single class: {[o.text()[:100] for o in outs]}", fi.loc(), okmsg="no fragments -> single class")
